@@ -1,9 +1,9 @@
 #!/bin/sh
-# seedwave.sh <prop> <check>... : stores the sub-agent's seeds /tmp/wt/out-<prop>/{A,B} as seeded/<prop>-C and <prop>-D
-# (after confirming them) and runs the given quick checks against each in a scratch worktree
-p=$1; shift
+# seedwave.sh <prop> "<A:C B:D ...>" <check>... : stores the sub-agent's seeds /tmp/wt/out-<prop>/<A|B|..> as
+# seeded/<prop>-<letter> (after confirming them) and runs the given quick checks against each in a scratch worktree
+p=$1; map=$2; shift; shift
 cd /verif
-for x in A:C B:D; do
+for x in $map; do
   src=/tmp/wt/out-$p/${x%%:*}; name=$p-${x##*:}
   [ -d $src ] || continue
   python3 tools/seedverify.py $src $name 2>&1 | tail -1
